@@ -61,6 +61,12 @@ func parseLit(l string) float64 {
 func (v Val) js() string {
 	switch v.K {
 	case "u":
+		switch v.N { // three ways of passing undefined explicitly
+		case "void":
+			return "void 0"
+		case "var":
+			return "__U"
+		}
 		return "undefined"
 	case "l":
 		return "null"
@@ -243,7 +249,7 @@ func boolJS(b bool) string {
 // setupJS declares the case objects and registers their identity tags.
 func (e *Env) setupJS() string {
 	var b strings.Builder
-	b.WriteString("__reset();var O1={},O2={};__reg(O1,'O1');__reg(O2,'O2');")
+	b.WriteString("__reset();var __U,O1={},O2={};__reg(O1,'O1');__reg(O2,'O2');")
 	for i, n := range e.VNums {
 		fmt.Fprintf(&b, "var V%d={valueOf:function(){L('V%d');return %s}};__reg(V%d,'V%d');", i+1, i+1, vn(n).js(), i+1, i+1)
 	}
